@@ -1,31 +1,45 @@
 /-
-  Concrete semantics of a core SCHEDULE keyword set over an observation record, mirroring
-  `Schedule::iterateScheduleSection` (create_next; handlers; end_report) and the handlers
-  WELSPECS, COMPDAT, WCONPROD, WCONINJE, WELOPEN (well and connection form), WELTARG, WEFAC,
-  GRUPTREE, GEFAC, GCONPROD, plus the ACTIONX ... ENDACTIO registry.
+  Concrete semantics of a SCHEDULE keyword set over an observation record, mirroring
+  `Schedule::iterateScheduleSection` (create_next; handlers; applyGlobalWPIMULT; end_report) and the
+  handlers
+
+    WELSPECS (new wells, regrouping, head change), COMPDAT, COMPLUMP, WPIMULT (immediate and
+    deferred form), WELOPEN (well form and connection/completion form), WCONPROD, WCONINJE,
+    WCONHIST, WCONINJH, WHISTCTL, WELTARG, WEFAC, WECON, WTEST, WLIST (NEW/ADD/DEL/MOV, and `*LIST`
+    patterns in every well-name item), GRUPTREE, GEFAC, GCONPROD, GCONINJE, NEXTSTEP,
+    UDQ ASSIGN/DEFINE/UNITS (registry), and the ACTIONX ... ENDACTIO registry.
 
   The state is split into channels so that what a handler may read and write is fixed by its
   *type* (this is what makes the C04 commutation argument structural):
 
-    p    : Props    wells (insertion order) with their properties, groups, action registry
-    c    : ConnMap  well name ↦ connections (cell, state)
-    st   : StatMap  well name ↦ well status
+    p    : Props     wells (insertion order) with their properties, groups, action/UDQ/WLIST/WTEST
+                     registries, NEXTSTEP, WHISTCTL, report-step counter
+    c    : ConnChan  well name ↦ connections (cell, state, completion number, PI multiplier) and
+                     the deferred WPIMULT factors of the report step being processed
+    st   : StatMap   well name ↦ well status
     mark : wells carrying ACTIONX_WELL_EVENT at this report step
 
-  A *property* record operation reads `p` and `c` and produces a new `p` plus a list of status
+  A *property* record operation reads `p` and — of the connection channel — only whether a well
+  has connections at all (`e : String → Bool`), and produces a new `p` plus a list of status
   writes; a *connection* record operation reads `p` and produces a new `c`.  No operation reads
   `st` or `mark` (in the C++ the status is read only to emit events/messages, which are outside
   the observation record).  Numeric values are opaque tokens (the hex bit pattern of the double
-  in the deck); the model never computes with them.
+  in the deck) or symbolic expressions over them (`mul(a,b)`, `add(a,b)`); the model never
+  computes with them — the front end (`SchedIO`) evaluates the expressions in IEEE double
+  arithmetic when printing.
 
-  Not modelled (see design.d/C03.md): role switch injector -> producer by WCONPROD (`unsupported`),
-  events other than the ACTIONX marker, WLIST, VFP/THP, guide rates, UDQ-valued items.
+  Not modelled (see design.d/C03.md): events other than the ACTIONX marker, VFP/THP/ALQ, guide
+  rates, UDQ-valued items, WELTARG modes THP/VFP/LIFT/GUID (`unsupported`), has_produced /
+  has_injected, ordering of the connections inside a well (the record is sorted by cell).
 -/
 import OpmVerif.Model.SchedDeck
 
 namespace OpmVerif.Sched
 
 abbrev Val := String
+
+def vmul (a b : Val) : Val := "mul(" ++ a ++ "," ++ b ++ ")"
+def vadd (a b : Val) : Val := "add(" ++ a ++ "," ++ b ++ ")"
 
 inductive Err | input | unsupported
 deriving DecidableEq, Repr
@@ -40,9 +54,12 @@ structure Conn where
   k : Nat
   /-- Connection::State: 1 OPEN, 2 SHUT, 3 AUTO -/
   state : Nat
+  complnum : Nat
+  /-- Connection::wellPi(): product of the WPIMULT factors since the last COMPDAT of the cell -/
+  pimult : Val
 deriving DecidableEq, Repr
 
-/-- WellProductionProperties (observed part).  `cmode`/`ctrl` use the enum values of
+/-- WellProductionProperties (observed part).  `cmode`/`ctrl`/`whist` use the enum values of
 `Well::ProducerCMode` (ORAT 1, WRAT 2, GRAT 4, LRAT 8, RESV 32, BHP 64, GRUP 256, UNDEFINED 1024). -/
 structure ProdP where
   cmode : Nat := 1024
@@ -54,6 +71,11 @@ structure ProdP where
   lrat : Val := "-"
   resv : Val := "-"
   bhp : Val := "-"
+  /-- bhp_hist_limit (SI) and whether it is still the default -/
+  bhpLim : Val
+  bhpLimDef : Bool := true
+  bhph : Val
+  whist : Nat := 1024
 deriving DecidableEq, Repr
 
 /-- WellInjectionProperties (observed part); `Well::InjectorCMode`: RATE 1, RESV 2, BHP 4,
@@ -66,16 +88,36 @@ structure InjP where
   rate : Val := "-"
   resv : Val := "-"
   bhp : Val := "-"
+  bhpLim : Val
+  bhph : Val
 deriving DecidableEq, Repr
 
 structure WellP where
   group : String
   headI : Nat
   headJ : Nat
+  /-- head at creation: the `WellConnections` object is built with it and keeps it -/
+  head0I : Nat
+  head0J : Nat
   producer : Bool := true
-  prod : ProdP := {}
-  inj : InjP := {}
+  /-- Well::prediction_mode -/
+  wpred : Bool := true
+  prod : ProdP
+  inj : InjP
   efac : Val
+  /-- WECON: (min oil rate SI, max water cut, workover procedure) -/
+  econ : Val × Val × String
+deriving DecidableEq, Repr
+
+/-- GCONINJE of one phase. -/
+structure GInjP where
+  cmode : String
+  ctrl : Nat
+  surface : Val
+  resv : Val
+  reinj : Val
+  voidage : Val
+  avail : Bool
 deriving DecidableEq, Repr
 
 /-- Group (observed part); `Group::ProductionCMode`: NONE 0, ORAT 1, WRAT 2, GRAT 4, LRAT 8,
@@ -91,14 +133,23 @@ structure GroupP where
   water : Val := "-"
   gas : Val := "-"
   liquid : Val := "-"
+  /-- phase name ↦ injection properties, in order of first appearance -/
+  ginj : List (String × GInjP) := []
 deriving DecidableEq, Repr
 
 /-- Constants of the run the harness passes in (values the code derives from the unit system). -/
 structure Consts where
-  one : Val       -- 1.0  (initial efficiency factors)
+  one : Val       -- 1.0  (initial efficiency factors, PI multipliers)
   zero : Val      -- token of a defaulted UDA item (not a number: `-`)
   bhpProd : Val   -- default producer BHP target in deck units
   bhpInj : Val    -- default injector BHP limit in deck units
+  num0 : Val      -- 0.0
+  siP : Val       -- SI scaling of a pressure
+  siLRate : Val   -- SI scaling of a liquid surface rate
+  siTime : Val    -- SI scaling of a time
+  bhpProdSI : Val -- WCONPROD default BHP target, SI
+  bhpHistSI : Val -- WCONHIST default BHP limit (FBHPDEF default), SI
+  bhpInjHSI : Val -- WCONINJH default BHP limit, SI
 deriving DecidableEq, Repr
 
 structure WconprodRec where
@@ -123,6 +174,27 @@ structure WconinjeRec where
   bhp : Option Val
 deriving DecidableEq, Repr
 
+/-- WCONHIST: rates have the default 0 (always numbers); BHP is optional. -/
+structure WconhistRec where
+  pat : String
+  status : Status
+  cmode : Option Nat
+  orat : Val
+  wrat : Val
+  grat : Val
+  bhp : Option Val
+deriving DecidableEq, Repr
+
+structure WconinjhRec where
+  pat : String
+  itype : String
+  status : Status
+  rate : Option Val
+  bhp : Option Val
+  /-- CMODE item: RATE 1, BHP 4, anything else is reset to RATE -/
+  cmode : Nat
+deriving DecidableEq, Repr
+
 structure GconprodRec where
   pat : String
   cmode : Nat
@@ -134,25 +206,59 @@ structure GconprodRec where
   exceed : Bool
 deriving DecidableEq, Repr
 
+structure GconinjeRec where
+  pat : String
+  phase : String
+  cmode : String
+  surface : Option Val
+  resv : Option Val
+  reinj : Option Val
+  voidage : Option Val
+  free : Bool
+deriving DecidableEq, Repr
+
+inductive UdqAct | assign | define | units
+deriving DecidableEq, Repr
+
 /-- One record of a keyword. -/
 inductive ROp
-  | welspecs (name group : String) (i j : Nat)
+  | welspecs (name group : String) (i j : Option Nat)
   | wconprod (r : WconprodRec)
   | wconinje (r : WconinjeRec)
+  | wconhist (r : WconhistRec)
+  | wconinjh (r : WconinjhRec)
+  | whistctl (mode : Nat)
   | welopenW (pat : String) (status : Status)
   | weltarg (pat : String) (mode : String) (v : Val)
   | wefac (pat : String) (v : Val)
+  | wecon (pat : String) (oil wct : Val) (workover : String)
+  | wtest (pat : String) (interval : Val) (reasons : String) (num : Nat) (startup : Val)
+  | wlist (name action : String) (wells : List String)
   | gruptree (child parent : String)
   | gefac (pat : String) (v : Val)
   | gconprod (r : GconprodRec)
+  | gconinje (r : GconinjeRec)
+  | nextstep (v : Val) (all : Bool)
+  | udq (act : UdqAct) (name : String) (data : String)
   | compdat (pat : String) (i j k1 k2 : Nat) (state : Nat)
-  | welopenC (pat : String) (cstate : Option Nat) (i j k : Nat)
+  | welopenC (pat : String) (cstate : Option Nat) (i j k c1 c2 : Nat)
+  | complump (pat : String) (i j k1 k2 n : Nat)
+  | wpimultC (pat : String) (f : Val) (i j k c1 c2 : Nat)
+  | wpimultG (pat : String) (f : Val)
 deriving DecidableEq, Repr
+
+/-- COMPLUMP: a connection operation that changes completion numbers only. -/
+def ROp.isLump : ROp → Bool
+  | .complump .. => true
+  | _ => false
 
 /-- Connection operations write the connection channel; all others the property channel. -/
 def ROp.isConn : ROp → Bool
   | .compdat .. => true
   | .welopenC .. => true
+  | .complump .. => true
+  | .wpimultC .. => true
+  | .wpimultG .. => true
   | _ => false
 
 inductive CKw
@@ -161,18 +267,50 @@ inductive CKw
   | endactio
 deriving DecidableEq, Repr
 
+structure WTest where
+  reasons : Nat
+  interval : Val
+  num : Nat
+  startup : Val
+  step : Nat
+deriving DecidableEq, Repr
+
+/-- UDQConfig::input_index entry + the define's input string. -/
+structure UdqE where
+  /-- 0 ASSIGN, 1 DEFINE -/
+  action : Nat
+  insertIdx : Nat
+  typedIdx : Nat
+  define : Option String
+  assigned : Bool
+deriving DecidableEq, Repr
+
 structure Props where
   wells : List (String × WellP) := []
   groups : List (String × GroupP) := []
   actions : List (String × List CKw) := []
+  wlists : List (String × List String) := []
+  wtest : List (String × WTest) := []
+  udq : List (String × UdqE) := []
+  udqUnits : List (String × String) := []
+  nextstep : Option (Val × Bool) := none
+  whistctl : Nat := 1024
+  /-- number of `create_next` calls so far (= current report step + 1) -/
+  nstep : Nat := 0
 deriving DecidableEq, Repr
 
 abbrev ConnMap := List (String × List Conn)
 abbrev StatMap := List (String × Status)
 
+structure ConnChan where
+  m : ConnMap := []
+  /-- wpimult_global_factor of the block being processed -/
+  g : List (String × Val) := []
+deriving DecidableEq, Repr
+
 structure State where
   p : Props
-  c : ConnMap := []
+  c : ConnChan := {}
   st : StatMap := []
   mark : List String := []
 deriving DecidableEq, Repr
@@ -202,39 +340,67 @@ def statusOf (st : StatMap) (w : String) : Status := (lookup st w).getD .shut
 def applyWrites (st : StatMap) (ws : List (String × Status)) : StatMap :=
   ws.foldl (fun m (w : String × Status) => setKey m w.1 w.2) st
 
+def dedup : List String → List String
+  | [] => []
+  | a :: r => a :: (dedup r).filter (· ≠ a)
+
 /-! ### name patterns -/
 
-/-- `shmatch` restricted to literal characters and `*`. -/
+def suffixes : List Char → List (List Char)
+  | [] => [[]]
+  | c :: s => (c :: s) :: suffixes s
+
+/-- `shmatch` restricted to literal characters and `*` (structural in the pattern: a `*`
+tries every suffix of the name). -/
 def globChars : List Char → List Char → Bool
-  | [], [] => true
-  | [], _ :: _ => false
-  | '*' :: p, [] => globChars p []
-  | '*' :: p, c :: s => globChars p (c :: s) || globChars ('*' :: p) s
+  | [], s => s.isEmpty
+  | '*' :: p, s => (suffixes s).any (globChars p)
   | _ :: _, [] => false
   | a :: p, c :: s => a == c && globChars p s
-termination_by p s => p.length + s.length
 
 def glob (pat name : String) : Bool := globChars pat.toList name.toList
 
+/-- `WListManager::wells(pattern)` as a set: the wells of the list of that name, else of every
+list whose name matches the pattern. -/
+def wlistWells (wl : List (String × List String)) (pat : String) : List String :=
+  match lookup wl pat with
+  | some ws => ws
+  | none => (wl.filter fun (n, _) => globChars (pat.toList.drop 1) (n.toList.drop 1)).flatMap Prod.snd
+
 /-- `Schedule::wellNames(pattern, step, matching_wells)` via `WellMatcher`. -/
-def wellNames (order : List String) (m : List String) (pat : String) : Except Err (List String) :=
+def wellNames (order : List String) (wl : List (String × List String)) (m : List String) (pat : String) :
+    Except Err (List String) :=
   if pat = "?" then
     if m.all (fun w => order.contains w) then .ok (order.filter fun w => m.contains w) else .error .input
   else if pat.isEmpty then .ok []
-  else if pat.front = '*' ∧ pat.length > 1 then .ok []      -- well list, none defined
-  else if pat.contains '*' then .ok (order.filter fun w => glob pat w)
-  else if order.contains pat then .ok [pat] else .ok []
+  else if pat.front = '*' ∧ pat.length > 1 then
+    let ws := wlistWells wl pat
+    if ws.all (fun w => order.contains w) then .ok (order.filter fun w => ws.contains w) else .error .input
+  else
+    let patt := if pat.front = '\\' then String.ofList (pat.toList.drop 1) else pat
+    if patt.toList.contains '*' then .ok (order.filter fun w => glob patt w)
+    else if order.contains patt then .ok [patt] else .ok []
 
-/-- … with the "no wells match" input error of `Schedule::wellNames(pattern, context, allowEmpty)`. -/
-def wellNamesReq (order m : List String) (pat : String) : Except Err (List String) :=
-  match wellNames order m pat with
+/-- … with the "no wells match" input error of `Schedule::wellNames(pattern, context, allowEmpty = false)`. -/
+def wellNamesReq (order : List String) (wl : List (String × List String)) (m : List String) (pat : String) :
+    Except Err (List String) :=
+  match wellNames order wl m pat with
   | .error e => .error e
   | .ok [] => if pat = "?" then .ok [] else .error .input
   | .ok ns => .ok ns
 
+/-- `HandlerContext::wellNames(pattern)`: an empty result is accepted when `pattern` is the name
+of an existing well list. -/
+def wellNamesLst (order : List String) (wl : List (String × List String)) (m : List String) (pat : String) :
+    Except Err (List String) :=
+  match wellNames order wl m pat with
+  | .error e => .error e
+  | .ok [] => if pat = "?" || has wl pat then .ok [] else .error .input
+  | .ok ns => .ok ns
+
 /-- `Schedule::groupNames(pattern)` + `invalidNamePattern` when empty. -/
 def groupNamesReq (order : List String) (pat : String) : Except Err (List String) :=
-  let ns := if pat.isEmpty then [] else if pat.contains '*' then order.filter (fun g => glob pat g)
+  let ns := if pat.isEmpty then [] else if pat.toList.contains '*' then order.filter (fun g => glob pat g)
             else if order.contains pat then [pat] else []
   match ns with
   | [] => if pat = "?" then .ok [] else .error .input
@@ -300,49 +466,99 @@ def addWellToGroup (gs : List (String × GroupP)) (old g w : String) : Except Er
 
 abbrev PRes := Except Err (Props × List (String × Status))
 
-/-- `Schedule::updateWellStatus`: a well without connections cannot be opened. -/
-def statusWrite (c : ConnMap) (w : String) (s : Status) : List (String × Status) :=
-  if (connsOf c w).isEmpty ∧ s = .open_ then [] else [(w, s)]
+/-- `Schedule::updateWellStatus`: a well without connections cannot be opened.
+`e w` = well `w` has no connections. -/
+def statusWrite (e : String → Bool) (w : String) (s : Status) : List (String × Status) :=
+  if e w ∧ s = .open_ then [] else [(w, s)]
 
 def optV (d : Val) : Option Val → Val
   | some v => v
   | none => d
 
+def optN (d : Nat) : Option Nat → Nat
+  | some v => v
+  | none => d
+
 def bit (b : Bool) (v : Nat) : Nat := if b then v else 0
 
-/-- `WellProductionProperties::handleWCONPROD` after `clearControls` + GRUP. -/
-def wconprodProps (k : Consts) (r : WconprodRec) : Except Err ProdP :=
+def addCtrl (ctrl v : Nat) : Nat := if ctrl &&& v ≠ 0 then ctrl else ctrl + v
+def dropCtrl (ctrl v : Nat) : Nat := if ctrl &&& v ≠ 0 then ctrl - v else ctrl
+
+def newProd (k : Consts) (whist : Nat) : ProdP := { bhpLim := k.num0, bhph := k.num0, whist := whist }
+def newInj (k : Consts) : InjP := { bhpLim := k.num0, bhph := k.num0 }
+
+/-- `Well::switchToProducer` on the injection properties. -/
+def injAfterSwitch (k : Consts) (i : InjP) : InjP := { i with bhp := k.num0, ctrl := dropCtrl i.ctrl 4 }
+
+/-- `WellProductionProperties::handleWCONPROD` on a copy of the old properties after
+`clearControls` + GRUP. -/
+def wconprodProps (k : Consts) (old : ProdP) (r : WconprodRec) : Except Err ProdP :=
   let ctrl := 256 + bit r.orat.isSome 1 + bit r.wrat.isSome 2 + bit r.grat.isSome 4 + bit r.lrat.isSome 8 +
     bit r.resv.isSome 32 + 64
   let p : ProdP :=
-    { cmode := 1024, ctrl := ctrl, pred := true,
-      orat := optV k.zero r.orat, wrat := optV k.zero r.wrat, grat := optV k.zero r.grat,
-      lrat := optV k.zero r.lrat, resv := optV k.zero r.resv, bhp := optV k.bhpProd r.bhp }
+    { old with ctrl := ctrl, pred := true,
+               orat := optV k.zero r.orat, wrat := optV k.zero r.wrat, grat := optV k.zero r.grat,
+               lrat := optV k.zero r.lrat, resv := optV k.zero r.resv, bhp := optV k.bhpProd r.bhp }
   match r.cmode with
   | none => .ok p
   | some cm => if ctrl &&& cm ≠ 0 then .ok { p with cmode := cm } else .error .input
 
 def wconinjeProps (k : Consts) (old : InjP) (r : WconinjeRec) : Except Err InjP :=
-  let ctrl := bit r.rate.isSome 1 + bit r.resv.isSome 2 + 4 + 16
+  let c1 := if r.rate.isSome then addCtrl old.ctrl 1 else dropCtrl old.ctrl 1
+  let c2 := if r.resv.isSome then addCtrl c1 2 else dropCtrl c1 2
+  let c3 := dropCtrl c2 8
+  let ctrl := addCtrl (addCtrl c3 4) 16
   let p : InjP :=
-    { itype := r.itype, cmode := old.cmode, ctrl := ctrl, pred := true,
-      rate := optV old.rate r.rate, resv := optV old.resv r.resv, bhp := optV k.bhpInj r.bhp }
+    { old with itype := r.itype, ctrl := ctrl, pred := true,
+               rate := optV old.rate r.rate, resv := optV old.resv r.resv, bhp := optV k.bhpInj r.bhp }
   if ctrl &&& r.cmode ≠ 0 then .ok { p with cmode := r.cmode } else .error .input
 
-def addCtrl (ctrl v : Nat) : Nat := if ctrl &&& v ≠ 0 then ctrl else ctrl + v
+def effectiveHist (cm : Nat) : Bool := cm = 8 || cm = 32 || cm = 1 || cm = 2 || cm = 4 || cm = 64
 
-def weltargProd (p : ProdP) (mode : String) (v : Val) : Except Err ProdP :=
+/-- `WellProductionProperties::handleWCONHIST` (+ `init_history`). -/
+def wconhistProps (k : Consts) (old : ProdP) (r : WconhistRec) : Except Err ProdP :=
+  let lim1 := if old.pred || old.cmode = 64 then k.bhpHistSI else old.bhpLim
+  let bhph := match r.bhp with
+    | some v => vmul v k.siP
+    | none => old.bhph
+  match r.cmode with
+  | none => .error .input                                  -- "control mode can not be defaulted"
+  | some item =>
+    let cm := if effectiveHist old.whist then old.whist else item
+    if !effectiveHist cm then .error .input
+    else
+      .ok { old with orat := r.orat, wrat := r.wrat, grat := r.grat, lrat := vadd r.wrat r.orat, resv := k.num0,
+                     pred := false, bhph := bhph, cmode := cm, ctrl := addCtrl cm 64,
+                     bhpLim := if cm = 64 then bhph else lim1 }
+
+/-- `WellInjectionProperties::handleWCONINJH`.  A control mode other than RATE/BHP is reset to
+RATE with a warning whose text needs the surface rate: when that was never given, composing the
+warning throws (`UDAValue does not hold a string value`). -/
+def wconinjhProps (k : Consts) (old : InjP) (isProducer : Bool) (r : WconinjhRec) : Except Err InjP :=
+  let bhph := match r.bhp with
+    | some v => vmul v k.siP
+    | none => old.bhph
+  let rate := optV old.rate r.rate
+  let cm := if r.cmode = 1 || r.cmode = 4 then r.cmode else 1
+  let lim := if cm = 4 then bhph
+             else if old.pred || old.cmode = 4 || isProducer then k.bhpInjHSI else old.bhpLim
+  if !(r.cmode = 1 || r.cmode = 4) && rate = k.zero then .error .input
+  else .ok { old with itype := r.itype, rate := rate, bhph := bhph, bhpLim := lim,
+                      ctrl := addCtrl (addCtrl old.ctrl 4) cm, cmode := cm, pred := false }
+
+def weltargProd (k : Consts) (p : ProdP) (mode : String) (v : Val) : Except Err ProdP :=
   if mode = "ORAT" then .ok { p with orat := v, ctrl := addCtrl p.ctrl 1 }
   else if mode = "WRAT" then .ok { p with wrat := v, ctrl := addCtrl p.ctrl 2 }
   else if mode = "GRAT" then .ok { p with grat := v, ctrl := addCtrl p.ctrl 4 }
   else if mode = "LRAT" then .ok { p with lrat := v, ctrl := addCtrl p.ctrl 8 }
   else if mode = "RESV" then .ok { p with resv := v, ctrl := addCtrl p.ctrl 32 }
   else if mode = "BHP" then
-    .ok { p with bhp := if p.pred then v else p.bhp, ctrl := addCtrl p.ctrl 64 }
+    .ok { p with bhp := if p.pred then v else p.bhp, bhpLim := if p.pred then p.bhpLim else vmul v k.siP,
+                 ctrl := addCtrl p.ctrl 64, bhpLimDef := false }
   else .error .unsupported
 
-def weltargInj (p : InjP) (mode : String) (v : Val) : Except Err InjP :=
-  if mode = "BHP" then .ok { p with bhp := if p.pred then v else p.bhp }
+def weltargInj (k : Consts) (p : InjP) (mode : String) (v : Val) : Except Err InjP :=
+  if mode = "BHP" then .ok { p with bhp := if p.pred then v else p.bhp, bhpLim := if p.pred then p.bhpLim else vmul v k.siP }
   else if mode = "ORAT" then (if p.itype = "OIL" then .ok { p with rate := v } else .error .input)
   else if mode = "WRAT" then (if p.itype = "WATER" then .ok { p with rate := v } else .error .input)
   else if mode = "GRAT" then (if p.itype = "GAS" then .ok { p with rate := v } else .error .input)
@@ -368,11 +584,65 @@ def gconprodProps (g : GroupP) (r : GconprodRec) (z : Val) : GroupP :=
   { g with cmode := r.cmode, ctrl := ctrl, oil := optV z r.oil, water := optV z r.water,
            gas := optV z r.gas, liquid := optV z r.liquid }
 
+/-- GCONINJE for one group (`Group::InjectionCMode`: RATE 1, RESV 2, REIN 4, VREP 8). -/
+def gconinjeProps (k : Consts) (name : String) (g : GroupP) (r : GconinjeRec) : GroupP :=
+  let ip : GInjP :=
+    { cmode := r.cmode, ctrl := bit r.surface.isSome 1 + bit r.resv.isSome 2 + bit r.reinj.isSome 4 + bit r.voidage.isSome 8,
+      surface := optV k.zero r.surface, resv := optV k.zero r.resv, reinj := optV k.zero r.reinj,
+      voidage := optV k.zero r.voidage, avail := (r.free || r.cmode = "FLD") && name ≠ "FIELD" }
+  { g with ginj := setKey g.ginj r.phase ip }
+
+/-- WELSPECS on existing wells: new head (refused while the reference depth cannot be derived,
+i.e. while the well has no connections), then regroup one after the other. -/
+def regroup (e : String → Bool) (group : String) (i j : Option Nat) :
+    List (String × WellP) → List (String × GroupP) → List String →
+    Except Err (List (String × WellP) × List (String × GroupP))
+  | wl, gs, [] => .ok (wl, gs)
+  | wl, gs, n :: r =>
+    match lookup wl n with
+    | none => .error .input
+    | some w =>
+      let hi := optN w.headI i
+      let hj := optN w.headJ j
+      if (hi ≠ w.headI ∨ hj ≠ w.headJ) ∧ e n then .error .input
+      else
+        match addWellToGroup gs w.group group n with
+        | .error e => .error e
+        | .ok gs' => regroup e group i j (modify wl n fun x => { x with group := group, headI := hi, headJ := hj }) gs' r
+
+def reasonMask (s : String) : Nat :=
+  s.toList.foldl (fun a c => a + (if c = 'P' then 1 else if c = 'E' then 2 else if c = 'G' then 4
+                                  else if c = 'D' then 8 else if c = 'C' then 16 else 0)) 0
+
+def wlistUpdate (wl : List (String × List String)) (name action : String) (wells : List String) :
+    Except Err (List (String × List String)) :=
+  if !(["NEW", "ADD", "DEL", "MOV"].contains action) then .error .input
+  else if name.front ≠ '*' then .error .input
+  else
+    let wl1 := if action = "NEW" then setKey wl name (dedup wells) else wl
+    match lookup wl1 name with
+    | none => .error .input
+    | some _ =>
+      let wl2 := if action = "MOV" then wl1.map fun (n, ws) => (n, ws.filter fun w => !wells.contains w) else wl1
+      if action = "DEL" then .ok (modify wl2 name fun ws => ws.filter fun w => !wells.contains w)
+      else if action = "NEW" then .ok wl2
+      else .ok (modify wl2 name fun ws => dedup (ws ++ wells))
+
+/-- `UDQ::varType` of a quantity name as a small code (only used to count per type). -/
+def udqType (q : String) : Char := q.front
+
+def udqNode (u : List (String × UdqE)) (q : String) (action : Nat) : List (String × UdqE) :=
+  if has u q then modify u q fun x => { x with action := action }
+  else u ++ [(q, { action := action, insertIdx := u.length,
+                   typedIdx := (u.filter fun (n, _) => udqType n = udqType q).length + 1,
+                   define := none, assigned := false })]
+
 /-- One property record.  `m` = matching wells of the running action (empty outside actions),
-`c` = connections (read only). -/
-def stepP (k : Consts) (m : List String) (c : ConnMap) (p : Props) : ROp → PRes
+`e w` = well `w` has no connections (the only thing a property operation sees of the connection
+channel). -/
+def stepP (k : Consts) (m : List String) (e : String → Bool) (p : Props) : ROp → PRes
   | .welspecs name group i j =>
-    match wellNames (names p.wells) m name with
+    match wellNames (names p.wells) p.wlists m name with
     | .error e => .error e
     | .ok existing =>
       match ensureGroup k p.groups group with
@@ -380,73 +650,130 @@ def stepP (k : Consts) (m : List String) (c : ConnMap) (p : Props) : ROp → PRe
       | .ok gs =>
         match existing with
         | [] =>
-          let w : WellP := { group := group, headI := i, headJ := j, efac := k.one }
-          match addWellToGroup gs group group name with
-          | .error e => .error e
-          | .ok gs' => .ok ({ p with wells := p.wells ++ [(name, w)], groups := gs' }, [])
+          match i, j with
+          | some hi, some hj =>
+            let w : WellP := { group := group, headI := hi, headJ := hj, head0I := hi, head0J := hj, efac := k.one,
+                               prod := newProd k p.whistctl, inj := newInj k, econ := (k.num0, k.num0, "NONE") }
+            match addWellToGroup gs group group name with
+            | .error e => .error e
+            | .ok gs' => .ok ({ p with wells := p.wells ++ [(name, w)], groups := gs' }, [])
+          | _, _ => .error .input
         | ws =>
-          -- existing wells: new head, then regroup one after the other
-          let rec regroup (wl : List (String × WellP)) (gs : List (String × GroupP)) :
-              List String → Except Err (List (String × WellP) × List (String × GroupP))
-            | [] => .ok (wl, gs)
-            | n :: r =>
-              match lookup wl n with
-              | none => .error .input
-              | some w =>
-                if w.headI ≠ i ∨ w.headJ ≠ j then .error .unsupported   -- head change: outside the model
-                else
-                match addWellToGroup gs w.group group n with
-                | .error e => .error e
-                | .ok gs' => regroup (modify wl n fun x => { x with group := group, headI := i, headJ := j }) gs' r
-          match regroup p.wells gs ws with
+          match regroup e group i j p.wells gs ws with
           | .error e => .error e
           | .ok (wl, gs') => .ok ({ p with wells := wl, groups := gs' }, [])
   | .wconprod r =>
-    match wellNamesReq (names p.wells) m r.pat with
+    match wellNamesReq (names p.wells) p.wlists m r.pat with
     | .error e => .error e
     | .ok ns =>
-      match wconprodProps k r with
+      match forWells p.wells (fun _ w =>
+          match wconprodProps k w.prod r with
+          | .error e => .error e
+          | .ok pp =>
+            if w.producer then .ok { w with prod := pp, wpred := true }
+            else .ok { w with prod := { pp with bhpLim := if pp.bhpLimDef then k.bhpProdSI else pp.bhpLim },
+                              inj := injAfterSwitch k w.inj, producer := true, wpred := true }) ns with
       | .error e => .error e
-      | .ok pp =>
-        match forWells p.wells (fun _ w => if w.producer then .ok { w with prod := pp } else .error .unsupported) ns with
-        | .error e => .error e
-        | .ok wl => .ok ({ p with wells := wl }, ns.flatMap fun n => statusWrite c n r.status)
+      | .ok wl => .ok ({ p with wells := wl }, ns.flatMap fun n => statusWrite e n r.status)
   | .wconinje r =>
-    match wellNamesReq (names p.wells) m r.pat with
+    match wellNamesLst (names p.wells) p.wlists m r.pat with
     | .error e => .error e
     | .ok ns =>
       match forWells p.wells (fun _ w =>
           match wconinjeProps k w.inj r with
           | .error e => .error e
-          | .ok ip => .ok { w with inj := ip, producer := false }) ns with
+          | .ok ip => .ok { w with inj := ip, producer := false, wpred := true }) ns with
       | .error e => .error e
-      | .ok wl => .ok ({ p with wells := wl }, ns.flatMap fun n => statusWrite c n r.status)
-  | .welopenW pat status =>
-    match wellNamesReq (names p.wells) m pat with
+      | .ok wl => .ok ({ p with wells := wl }, ns.flatMap fun n => statusWrite e n r.status)
+  | .wconhist r =>
+    match wellNamesReq (names p.wells) p.wlists m r.pat with
     | .error e => .error e
-    | .ok ns => .ok (p, ns.flatMap fun n => statusWrite c n status)
+    | .ok ns =>
+      match forWells p.wells (fun _ w =>
+          let old := if w.producer then w.prod else { w.prod with whist := p.whistctl }
+          match wconhistProps k old r with
+          | .error e => .error e
+          | .ok pp =>
+            if w.producer then .ok { w with prod := pp, wpred := false }
+            else .ok { w with prod := { pp with bhpLim := if pp.bhpLimDef then k.bhpHistSI else pp.bhpLim },
+                              inj := injAfterSwitch k { w.inj with bhpLim := k.num0 }, producer := true, wpred := false }) ns with
+      | .error e => .error e
+      | .ok wl => .ok ({ p with wells := wl }, ns.flatMap fun n => statusWrite e n r.status)
+  | .wconinjh r =>
+    match wellNamesReq (names p.wells) p.wlists m r.pat with
+    | .error e => .error e
+    | .ok ns =>
+      match forWells p.wells (fun _ w =>
+          match wconinjhProps k w.inj w.producer r with
+          | .error e => .error e
+          | .ok ip => .ok { w with inj := ip, producer := false, wpred := false }) ns with
+      | .error e => .error e
+      | .ok wl => .ok ({ p with wells := wl }, ns.flatMap fun n => statusWrite e n r.status)
+  | .whistctl mode =>
+    -- `well2.updateProduction(prop)` on every well whose mode differs: an injector among them is
+    -- switched to producer (`Well::updateProduction` calls `switchToProducer`)
+    .ok ({ p with whistctl := mode, wells := p.wells.map fun (n, w) =>
+            if w.prod.whist = mode then (n, w)
+            else if w.producer then (n, { w with prod := { w.prod with whist := mode } })
+            else (n, { w with prod := { w.prod with whist := mode }, inj := injAfterSwitch k w.inj, producer := true }) }, [])
+  | .welopenW pat status =>
+    match wellNamesLst (names p.wells) p.wlists m pat with
+    | .error e => .error e
+    | .ok ns => .ok (p, ns.flatMap fun n => statusWrite e n status)
   | .weltarg pat mode v =>
-    match wellNamesReq (names p.wells) m pat with
+    match wellNamesReq (names p.wells) p.wlists m pat with
     | .error e => .error e
     | .ok ns =>
       match forWells p.wells (fun _ w =>
           if w.producer then
-            match weltargProd w.prod mode v with
+            match weltargProd k w.prod mode v with
             | .error e => .error e
             | .ok pp => .ok { w with prod := pp }
           else
-            match weltargInj w.inj mode v with
+            match weltargInj k w.inj mode v with
             | .error e => .error e
             | .ok ip => .ok { w with inj := ip }) ns with
       | .error e => .error e
       | .ok wl => .ok ({ p with wells := wl }, [])
   | .wefac pat v =>
-    match wellNamesReq (names p.wells) m pat with
+    match wellNamesLst (names p.wells) p.wlists m pat with
     | .error e => .error e
     | .ok ns =>
       match forWells p.wells (fun _ w => .ok { w with efac := v }) ns with
       | .error e => .error e
       | .ok wl => .ok ({ p with wells := wl }, [])
+  | .wecon pat oil wct wo =>
+    match wellNamesReq (names p.wells) p.wlists m pat with
+    | .error e => .error e
+    | .ok ns =>
+      match forWells p.wells (fun _ w => .ok { w with econ := (vmul oil k.siLRate, wct, wo) }) ns with
+      | .error e => .error e
+      | .ok wl => .ok ({ p with wells := wl }, [])
+  | .wtest pat interval reasons num startup =>
+    match wellNamesReq (names p.wells) p.wlists m pat with
+    | .error e => .error e
+    | .ok ns =>
+      let t : WTest := { reasons := reasonMask reasons, interval := vmul interval k.siTime, num := num,
+                         startup := vmul startup k.siTime, step := p.nstep - 1 }
+      .ok ({ p with wtest := ns.foldl (fun wt n => if reasons.isEmpty then wt.filter (fun x => x.1 ≠ n) else setKey wt n t) p.wtest }, [])
+  | .wlist name action wells =>
+    -- every argument is resolved on its own; an unknown plain name is an input error
+    let rec resolve : List String → Except Err (List String)
+      | [] => .ok []
+      | a :: r =>
+        match wellNames (names p.wells) p.wlists m a with
+        | .error e => .error e
+        | .ok ns =>
+          if ns.isEmpty && !a.toList.contains '*' then .error .input
+          else match resolve r with
+            | .error e => .error e
+            | .ok rest => .ok (ns ++ rest)
+    match resolve wells with
+    | .error e => .error e
+    | .ok ws =>
+      match wlistUpdate p.wlists name action ws with
+      | .error e => .error e
+      | .ok wl => .ok ({ p with wlists := wl }, [])
   | .gruptree child parent =>
     match ensureGroup k p.groups child with
     | .error e => .error e
@@ -465,55 +792,107 @@ def stepP (k : Consts) (m : List String) (c : ConnMap) (p : Props) : ROp → PRe
     match groupNamesReq (names p.groups) r.pat with
     | .error e => .error e
     | .ok ns => .ok ({ p with groups := ns.foldl (fun gs n => modify gs n fun g => gconprodProps g r k.zero) p.groups }, [])
+  | .gconinje r =>
+    match groupNamesReq (names p.groups) r.pat with
+    | .error e => .error e
+    | .ok ns => .ok ({ p with groups := ns.foldl (fun gs n => modify gs n fun g => gconinjeProps k n g r) p.groups }, [])
+  | .nextstep v all => .ok ({ p with nextstep := some (vmul v k.siTime, all) }, [])
+  | .udq act q data =>
+    match act with
+    | .units =>
+      match lookup p.udqUnits q with
+      | some u => if u = data then .ok (p, []) else .error .input
+      | none => .ok ({ p with udqUnits := p.udqUnits ++ [(q, data)] }, [])
+    | .assign => .ok ({ p with udq := modify (udqNode p.udq q 0) q fun x => { x with assigned := true } }, [])
+    | .define => .ok ({ p with udq := modify (udqNode p.udq q 1) q fun x => { x with define := some data } }, [])
   | .compdat .. => .error .unsupported
   | .welopenC .. => .error .unsupported
+  | .complump .. => .error .unsupported
+  | .wpimultC .. => .error .unsupported
+  | .wpimultG .. => .error .unsupported
 
 /-! ### connection operations -/
 
 def rangeIncl (a b : Nat) : List Nat := (List.range (b + 1 - a)).map (· + a)
 
-/-- `WellConnections::loadCOMPDAT` for one cell: replace the state of an existing connection
-in that cell, else append. -/
-def putConn (cs : List Conn) (i j k state : Nat) : List Conn :=
+/-- `WellConnections::loadCOMPDAT` for one cell: an existing connection in that cell is rebuilt
+(new state, PI multiplier back to 1, completion number kept), else a new one is appended with
+completion number size + 1. -/
+def putConn (one : Val) (cs : List Conn) (i j k state : Nat) : List Conn :=
   if cs.any (fun x => x.i = i ∧ x.j = j ∧ x.k = k) then
-    cs.map fun x => if x.i = i ∧ x.j = j ∧ x.k = k then { x with state := state } else x
-  else cs ++ [{ i := i, j := j, k := k, state := state }]
+    cs.map fun x => if x.i = i ∧ x.j = j ∧ x.k = k then { x with state := state, pimult := one } else x
+  else cs ++ [{ i := i, j := j, k := k, state := state, complnum := cs.length + 1, pimult := one }]
 
 def matchCoord (rec val : Nat) : Bool := rec = 0 || rec = val + 1
+def matchGe (rec val : Nat) : Bool := rec = 0 || val ≥ rec
+def matchLe (rec val : Nat) : Bool := rec = 0 || val ≤ rec
 
-def stepC (m : List String) (p : Props) (c : ConnMap) : ROp → Except Err ConnMap
+/-- The pattern of `Well::handleWELOPENConnections` / `handleCOMPLUMP` / `handleWPIMULT`: every
+connection is passed through `f`. -/
+def rebuild (c : ConnMap) (n : String) (f : Conn → Conn) : ConnMap :=
+  modify c n fun cs => cs.map f
+
+def stepC (k : Consts) (m : List String) (p : Props) (c : ConnChan) : ROp → Except Err ConnChan
   | .compdat pat i j k1 k2 state =>
-    match wellNamesReq (names p.wells) m pat with
+    match wellNamesLst (names p.wells) p.wlists m pat with
     | .error e => .error e
     | .ok ns =>
-      .ok (ns.foldl (fun c n =>
+      -- defaulted I/J use the head the `WellConnections` object was built with, which after a
+      -- WELSPECS head change depends on the connection ordering: outside the model
+      if (i = 0 ∨ j = 0) ∧ ns.any (fun n => match lookup p.wells n with
+          | some w => w.headI ≠ w.head0I ∨ w.headJ ≠ w.head0J
+          | none => false) then .error .unsupported
+      else
+      .ok { c with m := ns.foldl (fun cm n =>
         match lookup p.wells n with
-        | none => c
+        | none => cm
         | some w =>
-          let ci := if i = 0 then w.headI - 1 else i - 1
-          let cj := if j = 0 then w.headJ - 1 else j - 1
-          setKey c n ((rangeIncl (k1 - 1) (k2 - 1)).foldl (fun cs kk => if k1 = 0 then cs else putConn cs ci cj kk state) (connsOf c n))) c)
-  | .welopenC pat cstate i j k =>
-    match wellNamesReq (names p.wells) m pat with
+          let ci := if i = 0 then w.head0I - 1 else i - 1
+          let cj := if j = 0 then w.head0J - 1 else j - 1
+          setKey cm n ((rangeIncl (k1 - 1) (k2 - 1)).foldl (fun cs kk => if k1 = 0 then cs else putConn k.one cs ci cj kk state) (connsOf cm n))) c.m }
+  | .welopenC pat cstate i j kk c1 c2 =>
+    match wellNamesLst (names p.wells) p.wlists m pat with
     | .error e => .error e
     | .ok ns =>
       match cstate with
       | none => if ns.isEmpty then .ok c else .error .input
       | some s =>
-        .ok (ns.foldl (fun c n =>
-          setKey c n ((connsOf c n).map fun x =>
-            if matchCoord i x.i && matchCoord j x.j && matchCoord k x.k then { x with state := s } else x)) c)
+        .ok { c with m := ns.foldl (fun cm n => rebuild cm n fun x =>
+            if matchCoord i x.i && matchCoord j x.j && matchCoord kk x.k && matchGe c1 x.complnum && matchLe c2 x.complnum
+            then { x with state := s } else x) c.m }
+  | .complump pat i j k1 k2 n =>
+    match wellNamesLst (names p.wells) p.wlists m pat with
+    | .error e => .error e
+    | .ok ns =>
+      if n = 0 ∧ !ns.isEmpty then .error .input
+      else .ok { c with m := ns.foldl (fun cm w => rebuild cm w fun x =>
+            if matchCoord i x.i && matchCoord j x.j && (k1 = 0 || x.k + 1 ≥ k1) && (k2 = 0 || x.k + 1 ≤ k2)
+            then { x with complnum := n } else x) c.m }
+  | .wpimultC pat f i j kk c1 c2 =>
+    match wellNamesLst (names p.wells) p.wlists m pat with
+    | .error e => .error e
+    | .ok ns =>
+      .ok { c with m := ns.foldl (fun cm n => rebuild cm n fun x =>
+            if matchGe c1 x.complnum && matchLe c2 x.complnum && matchCoord i x.i && matchCoord j x.j && matchCoord kk x.k
+            then { x with pimult := vmul x.pimult f } else x) c.m }
+  | .wpimultG pat f =>
+    match wellNamesLst (names p.wells) p.wlists m pat with
+    | .error e => .error e
+    | .ok ns => .ok { c with g := ns.foldl (fun g n => setKey g n f) c.g }
   | _ => .error .unsupported
 
 /-! ### keywords, blocks, schedule -/
 
+/-- What a property operation sees of the connection channel. -/
+def emp (c : ConnChan) (w : String) : Bool := (connsOf c.m w).isEmpty
+
 def stepR (k : Consts) (m : List String) (s : State) (r : ROp) : Except Err State :=
   if r.isConn then
-    match stepC m s.p s.c r with
+    match stepC k m s.p s.c r with
     | .error e => .error e
     | .ok c' => .ok { s with c := c' }
   else
-    match stepP k m s.c s.p r with
+    match stepP k m (emp s.c) s.p r with
     | .error e => .error e
     | .ok (p', ws) => .ok { s with p := p', st := applyWrites s.st ws }
 
@@ -548,20 +927,36 @@ def runKws (k : Consts) : Option (String × List CKw) → State → List CKw →
 
 def allShut (cs : List Conn) : Bool := !cs.isEmpty && cs.all (fun x => x.state = 2)
 
+/-- `Schedule::applyGlobalWPIMULT`: every connection of the wells in the map is scaled. -/
+def applyGlobal (c : ConnChan) : ConnChan :=
+  { m := c.g.foldl (fun cm (nf : String × Val) => rebuild cm nf.1 fun x => { x with pimult := vmul x.pimult nf.2 }) c.m,
+    g := [] }
+
 /-- `Schedule::end_report` = `checkIfAllConnectionsIsShut`: status writes computed from the
 well list and the connection channel only. -/
 def endReportWrites (p : Props) (c : ConnMap) : List (String × Status) :=
   (names p.wells).flatMap fun w => if allShut (connsOf c w) then [(w, Status.shut)] else []
 
-def endReport (s : State) : State := { s with st := applyWrites s.st (endReportWrites s.p s.c) }
+def endReport (s : State) : State := { s with st := applyWrites s.st (endReportWrites s.p s.c.m) }
 
-/-- `create_next`: the new snapshot is a copy with the per-step event marker reset. -/
-def createNext (s : State) : State := { s with mark := [] }
+/-- End of a block (and of `applyAction`'s handler loop): deferred WPIMULT, then end_report. -/
+def closeBlock (s : State) : State := endReport { s with c := applyGlobal s.c }
+
+/-- `create_next`: the new snapshot is a copy with the per-step event marker reset, the
+report-step counter advanced and a one-shot NEXTSTEP dropped; the deferred WPIMULT map of the
+iteration is a fresh local. -/
+def createNext (s : State) : State :=
+  { s with mark := [],
+           p := { s.p with nstep := s.p.nstep + 1,
+                           nextstep := match s.p.nextstep with
+                             | some (v, true) => some (v, true)
+                             | _ => none },
+           c := { s.c with g := [] } }
 
 def stepBlock (k : Consts) (s : State) (kws : List CKw) : Except Err State :=
   match runKws k none (createNext s) kws with
   | .error e => .error e
-  | .ok s' => .ok (endReport s')
+  | .ok s' => .ok (closeBlock s')
 
 /-- State before block 0 (`create_first` adds the FIELD group). -/
 def init (k : Consts) : State := { p := { groups := [("FIELD", newGroup k "")] } }
